@@ -25,6 +25,7 @@ from geneticengine.algorithms.gp.operators.mutation import GenericMutationStep
 from geneticengine.algorithms.gp.operators.novelty import NoveltyStep
 from geneticengine.algorithms.gp.operators.selection import TournamentSelection
 from geneticengine.algorithms.hill_climbing import HC
+from geneticengine.evaluation.recorder import SearchRecorder
 from geneticengine.algorithms.one_plus_one import OnePlusOne
 from geneticengine.algorithms.random_search import RandomSearch
 from geneticengine.evaluation.budget import EvaluationBudget
@@ -521,6 +522,105 @@ def check_helpers(h: Harness):
                    f"with value {bv}; the population holds {fitter[0]}", {"vals": vals, "kind": kind})
 
 
+def check_population_recorder(h: Harness):
+    """`geml.common.PopulationRecorder` (what the sklearn-style wrappers report as their population): its head is the individual most
+    recently announced as best -- the tracker's best -- however many improvements a run has (more than its number of slots included),
+    and it holds the last `slots` improvements, newest first"""
+    try:
+        from geml.common import PopulationRecorder
+    except Exception as e:  # noqa: BLE001
+        h.notes.append(f"geml.common not importable ({type(e).__name__}): PopulationRecorder not checked")
+        return
+    rng = h.rng
+    for trial in range(h.n(6, 40)):
+        slots = rng.choice([100, 100, 3, 10])
+        n = rng.choice([slots + 5, 2 * slots + 7, slots - 1 if slots > 1 else 1, 250])
+        minimize = trial % 2 == 0
+        vals = []
+        v = 0
+        for _ in range(n):
+            v += rng.choice([1, 1, 2, 0, -1])      # mostly improving, some ties and steps back
+            vals.append(-v if minimize else v)
+        rec = PopulationRecorder(slots) if slots != 100 else PopulationRecorder()
+        problem = SingleObjectiveProblem(lambda ph: ph[1], minimize=minimize)
+        tracker = SingleObjectiveProgressTracker(problem, SequentialEvaluator(), recorders=[rec])
+        announced = []
+        ok = True
+        for i, x in enumerate(vals):
+            before = tracker.get_best_individual()
+            tracker.evaluate([mk_ind(i, x)])
+            b = tracker.get_best_individual()
+            if b is not before:
+                announced.insert(0, uid(b))
+            head = rec.best_individuals[0] if rec.best_individuals else None
+            if head is not b:
+                h.fail("PopulationRecorder.register", "reported-best-is-not-the-best",
+                       f"PopulationRecorder(slots={slots}) after {i + 1} registrations ({len(announced)} improvements, {'min' if minimize else 'max'}imise): its head "
+                       f"has fitness {None if head is None else head.genotype[1]}, the tracker's best has {b.genotype[1]}", {"vals": vals[: i + 1], "slots": slots})
+                ok = False
+                break
+        h.count("population-recorder-histories")
+        h.seen(f"population-recorder:{trial}:{slots}:{n}", nontrivial=len(announced) > slots)
+        if ok and [uid(x) for x in rec.best_individuals] != announced[:slots]:
+            h.fail("PopulationRecorder.register", "reported-best-is-not-the-best",
+                   f"PopulationRecorder(slots={slots}) after {n} registrations holds the improvements {[uid(x) for x in rec.best_individuals][:8]}…, "
+                   f"the last {slots} announced (newest first) are {announced[:8]}…", {"vals": vals, "slots": slots})
+
+
+def check_real_programs_with_ties(h: Harness):
+    """real programs of a tree grammar (they carry size and depth metadata) under a coarse fitness: many ties between programs of
+    different sizes.  A tie is no improvement, whatever else distinguishes the two programs: the flags are 'first or strictly better than
+    everything before', and search() returns the first individual that reached the best value"""
+    from props import steps_common as sc
+    from geneticengine.grammar.grammar import extract_grammar
+    from geneticengine.representations.tree.treebased import TreeBasedRepresentation
+    import synth
+    g = extract_grammar([sc.Leaf, sc.Node], sc.Root)
+    rng = h.rng
+    for trial in range(h.n(10, 100)):
+        minimize = trial % 2 == 0
+        r = NativeRandomSource(rng.randrange(10**6))
+        rep = TreeBasedRepresentation(g, synth.make_decider("grow", 5, r, g))
+        rows = []
+
+        class Rec(SearchRecorder):
+            def register(self, tracker, individual, problem, is_best):
+                rows.append((individual, individual.get_fitness(problem).fitness_components[0], bool(is_best)))
+        problem = SingleObjectiveProblem(lambda p: float(len(repr(p)) % 3), minimize=minimize)
+        tracker = SingleObjectiveProgressTracker(problem, SequentialEvaluator(), recorders=[Rec()])
+        try:
+            algo = rng.choice(["rs", "hc", "gp"])
+            budget = EvaluationBudget(rng.randint(8, 30))
+            if algo == "rs":
+                ret = RandomSearch(problem, budget, rep, r, tracker).search()
+            elif algo == "hc":
+                ret = HC(problem, budget, rep, r, tracker, number_of_mutations=2).search()
+            else:
+                ret = GeneticProgramming(problem, budget, rep, r, tracker, population_size=4).search()
+        except Exception as e:  # noqa: BLE001
+            h.fail("search", "raises", f"{type(e).__name__}: {e}"[:200], {"trial": trial})
+            continue
+        h.count(f"real-programs-with-ties:{algo}")
+        vals = [v for _, v, _ in rows]
+        h.seen(f"real-ties:{trial}:{vals}", nontrivial=len(set(vals)) < len(vals))
+        want, inc, first_best = [], None, None
+        for ind, v, _ in rows:
+            better = inc is None or (v < inc if minimize else v > inc)
+            want.append(better)
+            if better:
+                inc, first_best = v, ind
+        flags = [f for _, _, f in rows]
+        sizes = [getattr(i.get_phenotype(), "gengy_nodes", None) for i, _, _ in rows]
+        if flags != want:
+            j = next(k for k in range(len(flags)) if flags[k] != want[k])
+            h.fail("SingleObjectiveProgressTracker.evaluate", "is-best-flag-wrong",
+                   f"{algo} over real tree programs, {'min' if minimize else 'max'}imise, fitness values {vals} (program sizes {sizes}): registration #{j} was announced "
+                   f"with is_best={flags[j]}; it {'is' if want[j] else 'is not'} a strict improvement on everything before", {"trial": trial, "vals": vals})
+        elif ret is not first_best and rows:
+            h.fail(f"search[{algo}]", "returned-not-the-tracked-best", f"{algo} over real tree programs with fitness values {vals}: search() returned another "
+                   f"individual than the first one that reached the best value", {"trial": trial, "vals": vals})
+
+
 def check_one_tracker_several_searches(h: Harness):
     """one tracker lives through SEVERAL searches (a random-search warm start followed by hill climbing or GP, the same algorithm
     object searched twice, individuals evaluated through the tracker before the search): "every individual evaluated so far" is
@@ -842,5 +942,7 @@ def run(h: Harness):
     check_scale_invariance(h)
     check_searches(h)
     check_helpers(h)
+    check_population_recorder(h)
+    check_real_programs_with_ties(h)
     check_one_tracker_several_searches(h)
     check_adaptive_gp(h)
